@@ -1218,6 +1218,44 @@ fn c07_floating_bus_shadow_screen() {
     floating_bus_body(ZXMachine::Sinclair128K, true);
 }
 
+// @harness
+// @prop C07
+// @tier quick
+// @timeout 600
+// @fn ZXController::floating_bus_value; ZXController::write_7ffd; ZXMemory::ram_page_data; bitmap_line_addr
+// @sym 128K paging latch (two symbolic writes: every bank at 0xC000, either screen, lock, ROM), witness byte value and the bank holding it (5, 7 or 3) at the display-file offset of line 100, column 17
+// @assert at the literal frame time at which the ULA fetches that display byte, the floating bus shows the witness exactly when it lies in the bank being DISPLAYED (5, or 7 while latch bit 3 is set) - never a byte of bank 5 while the shadow screen is shown, never a byte of whatever bank is paged at 0xC000
+// @bound one literal beam position (T = 14362+2 + 100*228 + 66); all latch states; the position arithmetic for all beam positions is c07_floating_bus_48k (quick) and the two thorough 128K harnesses
+#[kani::proof]
+#[kani::unwind(10)]
+fn c07_floating_bus_bank_selection() {
+    let (mut c, latch, _t) = controller_at_machine(ZXMachine::Sinclair128K, false, false);
+    let v: u8 = kani::any();
+    kani::assume(v != 0 && v != 0xFF);
+    let cls: u8 = kani::any();
+    kani::assume(cls < 3);
+    let w_bank: u8 = match cls {
+        0 => {
+            c.memory.ram_page_data_mut(5)[0x0C80 + 17] = v;
+            5
+        }
+        1 => {
+            c.memory.ram_page_data_mut(7)[0x0C80 + 17] = v;
+            7
+        }
+        _ => {
+            c.memory.ram_page_data_mut(3)[0x0C80 + 17] = v;
+            3
+        }
+    };
+    let shown: u8 = if latch.val & 0x08 != 0 { 7 } else { 5 };
+    c.frame_clocks = 14362 + 2 + 100 * 228 + 66;
+    let got = c.floating_bus_value();
+    kani::assert(got == if w_bank == shown { v } else { 0 }, "c07.float.byte_comes_from_the_displayed_screen_bank");
+    kani::cover!(shown == 7 && w_bank == 7 && latch.val & 7 == 3, "shadow screen shown while bank 3 is paged at 0xC000");
+    kani::cover!(shown == 5 && w_bank == 7, "shadow bank not shown");
+}
+
 // =============================================================================================
 // C08 — every way of writing screen memory reaches the display copy
 // =============================================================================================
